@@ -443,7 +443,7 @@ def g7_view_requires_filter(prog):
 
 
 # -------------------------------------------------------------------------------------------------
-@rule('E1', props=['C16'], floor=5, configs=('all', 'default'))
+@rule('E1', props=['C16', 'C05'], floor=5, configs=('all', 'default'))
 def e1_equality_coverage(prog):
     """PartialEq for World, Allocator, Slot, Location, Archetypes, Archetype::component_eq read every
     field the statement lists, of both operands."""
@@ -632,7 +632,7 @@ def e2_archetypes_eq(prog):
 ENTITY_OPS = ('insert', 'extend', 'remove', 'clear', 'reserve', 'shrink_to_fit', 'contains', 'entry', 'len', 'is_empty', 'run_system', 'run_par_system')
 
 
-@rule('R1', props=['C15'], floor=10, configs=('all', 'default'))
+@rule('R1', props=['C15', 'C10'], floor=10, configs=('all', 'default'))
 def r1_who_touches_resources(prog):
     """World.resources is read only by the resource accessors, queries/systems (resource views), Clone,
     PartialEq, Debug, Serialize/Deserialize; it is written (mutable projection or assignment) only by
